@@ -32,10 +32,12 @@ pub enum Fam {
     PlantedSym,
     Shannon,
     NearConst,
+    SmallSupport,
+    NearVacuous,
 }
 
 impl Fam {
-    pub const ALL: [Fam; 14] = [
+    pub const ALL: [Fam; 16] = [
         Fam::Random,
         Fam::Sparse,
         Fam::Dense,
@@ -50,6 +52,8 @@ impl Fam {
         Fam::PlantedSym,
         Fam::Shannon,
         Fam::NearConst,
+        Fam::SmallSupport,
+        Fam::NearVacuous,
     ];
     pub fn name(self) -> &'static str {
         match self {
@@ -67,6 +71,8 @@ impl Fam {
             Fam::PlantedSym => "planted-symmetry",
             Fam::Shannon => "shannon",
             Fam::NearConst => "near-const",
+            Fam::SmallSupport => "small-support",
+            Fam::NearVacuous => "near-vacuous",
         }
     }
 }
@@ -217,6 +223,41 @@ pub fn gen(f: Fam, n: usize, rng: &mut Rng) -> Vec<u64> {
             v
         }
         Fam::Shannon => shannon_blocks(n, rng, None),
+        Fam::SmallSupport => {
+            // a random function of 1..4 variables placed on chosen variables of the n (the others are
+            // vacuous); the chosen variables are often adjacent and high (word-selecting) ones
+            if n == 0 {
+                return Model::constant(0, rng.bool()).to_blocks();
+            }
+            let k = std::cmp::min(n, rng.range(1, 4));
+            let vars = pick_vars(n, k, rng);
+            let g = rng.next_u64();
+            small_support_blocks(n, &vars, g)
+        }
+        Fam::NearVacuous => {
+            // independent of a variable except on one or two assignments (in the first, a middle or the last word)
+            let mut v = random_blocks(n, rng);
+            if n == 0 {
+                return v;
+            }
+            let i = rng.below(n);
+            for m in 0..size {
+                if m & (1 << i) != 0 {
+                    let b = get(&v, m & !(1usize << i));
+                    set(&mut v, m, b);
+                }
+            }
+            for _ in 0..rng.range(1, 2) {
+                let pos = match rng.below(3) {
+                    0 => rng.below(std::cmp::min(size, 64)),
+                    1 => size - 1 - rng.below(std::cmp::min(size, 64)),
+                    _ => rng.below(size),
+                };
+                let b = get(&v, pos);
+                set(&mut v, pos, !b);
+            }
+            v
+        }
         Fam::NearConst => {
             let c = rng.bool();
             let mut v = Model::constant(n, c).to_blocks();
@@ -232,6 +273,55 @@ pub fn gen(f: Fam, n: usize, rng: &mut Rng) -> Vec<u64> {
             v
         }
     }
+}
+
+/// k distinct variables of 0..n: random, or a run of adjacent ones, often among the highest
+pub fn pick_vars(n: usize, k: usize, rng: &mut Rng) -> Vec<usize> {
+    let k = std::cmp::min(k, n);
+    match rng.below(3) {
+        0 => {
+            let mut all: Vec<usize> = (0..n).collect();
+            rng.shuffle(&mut all);
+            all.truncate(k);
+            all
+        }
+        1 => {
+            // adjacent run ending at the top
+            let mut v: Vec<usize> = (n - k..n).collect();
+            rng.shuffle(&mut v);
+            v
+        }
+        _ => {
+            let start = rng.below(n - k + 1);
+            let mut v: Vec<usize> = (start..start + k).collect();
+            rng.shuffle(&mut v);
+            v
+        }
+    }
+}
+
+/// The n-variable function g(x_vars[0], x_vars[1], ...) where bit j of the argument of g is x_vars[j]
+/// and g is given as a truth table in the low 2^k bits of `g`.
+pub fn small_support_blocks(n: usize, vars: &[usize], g: u64) -> Vec<u64> {
+    let size = 1usize << n;
+    let mut v = vec![0u64; words(n)];
+    for m in 0..size {
+        let mut a = 0usize;
+        for (j, var) in vars.iter().enumerate() {
+            if (m >> var) & 1 == 1 {
+                a |= 1 << j;
+            }
+        }
+        if (g >> a) & 1 == 1 {
+            set(&mut v, m, true);
+        }
+    }
+    v
+}
+
+/// All count masks of n variables (the 2^(n+1) symmetric functions), as block vectors.
+pub fn all_symmetric(n: usize) -> impl Iterator<Item = Vec<u64>> {
+    (0..(1u64 << (n + 1))).map(move |c| Model::symmetric(n, c).to_blocks())
 }
 
 /// A function assembled from a small pool of sub-functions of `level` variables placed in the
